@@ -32,6 +32,7 @@ ProbeVerdict(r) ==
   THEN IF refused THEN "C34:refused-valid-grid:" \o r.err ELSE "C34:accepted-invalid-grid"
   ELSE IF refused
   THEN IF r.err = "ValueError" THEN "ok" ELSE "C34:wrong-exception:" \o r.err
+  ELSE IF r.nonfinite THEN "C34:non-finite-number"
   ELSE
   LET g == SortGrid(r.raw)
       n == Len(g)
